@@ -67,10 +67,17 @@ ReportFold(i) == IF i > Len(Files) THEN <<>>
                       ELSE IF ~(CanGen(f) /\ Found(f)) THEN <<>>
                       ELSE << Verdict(f) >> \o ReportFold(i + 1)
 \* (the tree is not changed by compare, so this may be evaluated before or after the step)
+\* github mode: only the rules that are up to date are reported one by one; if any rule is stale (and
+\* every file could be processed) one ::error:: line closes the output
+Fresh(vs) == SelectSeq(vs, LAMBDA v : v[2])
 Reports == IF last = <<>> THEN <<>>
-           ELSE IF last[1] = "compare-all" /\ ~last[2] THEN ReportFold(1)
-           ELSE IF last[1] = "compare" /\ ~last[3] /\ CanGen(last[2]) /\ Found(last[2]) THEN << Verdict(last[2]) >>
+           ELSE IF last[1] = "compare-all" THEN (IF last[2] THEN Fresh(ReportFold(1)) ELSE ReportFold(1))
+           ELSE IF last[1] = "compare" /\ CanGen(last[2]) /\ Found(last[2])
+                THEN (IF last[3] THEN Fresh(<< Verdict(last[2]) >>) ELSE << Verdict(last[2]) >>)
            ELSE <<>>
+GithubError == /\ last # <<>> /\ last[1] = "compare-all" /\ last[2]
+               /\ \A f \in FileSet : Present(f) => (CanGen(f) /\ Found(f))
+               /\ \E f \in FileSet : Present(f) /\ stored[f] # G(src[f])
 
 \* --all: text mode reports per rule but fails only when something cannot be processed;
 \* github mode fails when any rule is out of date
